@@ -33,8 +33,9 @@ class LTLExplainer(LtlAstVisitor):
         self.visit(element.children[1], [op2_intervals, flag])
 
     def visitVariable(self, element, args):
-        intervals = args[0]
-        self.explanations[element.name] = intervals
+        # a variable can be reached more than once: all its relevant intervals are reported
+        intervals = [list(i) for i in self.explanations.get(element.name, []) + args[0]]
+        self.explanations[element.name] = interval_union(intervals)
 
     def visitAddition(self, element, args):
         intervals = args[0]
